@@ -140,6 +140,7 @@ def run(P, R, tier):
     isocol_rule(P, R)
     rangeinit_rule(P, R)
     phasecoef_rule(P, R)
+    minimalrange_rule(P, R)
     R.undecided += ["mole balance of every element within the declared uncertainties; min..max ranges (solver output)",
                     "which subsets of phases the search visits; isotope balances"]
     R.rule("C18.sign", "one sign convention from the input word to the solver's acceptance test: precipitate <= 0, dissolve >= 0, mixing fractions >= 0", minimum=7)
@@ -457,3 +458,67 @@ def phasecoef_rule(P, R):
                             "(N2, O2, H2) the phase enters the element's mole balance with the wrong weight" % (", ".join(sorted(rowbases)) or "?", b), file=f["file"], line=line, function=f["q"])
     if n < 1:
         R.anchor_missing(RULE, "setup_inverse: phase-column loop with `token coefficient * coef` not found")
+
+
+def minimalrange_rule(P, R):
+    """"with -minimal no reported model's set strictly contains that of another reported model": minimal_solve reduces a feasible set by
+    trying to remove its members one at a time.  The members are the bits of the entity mask - the phases, then the solutions - and every
+    one of them except the last (the final solution, which a model cannot lack) must be tried: a removal loop that stops after the phases
+    reports sets from which an unnecessary initial solution could still be dropped, i.e. proper supersets of other reported models.  The
+    mask width is taken from the two loops that rebuild actual_bits (positions i and i + phases.size()); the bound of the removal loop is
+    compared with it symbolically."""
+    from .. import ratfun as RF
+    RULE = "C18.minimalrange"
+    R.rule(RULE, "minimal_solve: the removal loop visits every bit of the entity mask except the last one (the final solution)", minimum=1)
+    f = P.one("Phreeqc::minimal_solve")
+
+    def sym(n):
+        return "".join(T.text(n, -40).split())
+
+    def rat(n):
+        return RF.from_tree(n, sym, opaque_calls=("size",))
+
+    def loop_bound(lp):
+        c = lp[3]
+        if not (T.is_node(c) and c[0] == "Bin" and c[2] in ("<", "<=")):
+            return None
+        b = rat(c[4])
+        return b + RF.Rat.const(1) if c[2] == "<=" else b
+    try:
+        removal = [lp for lp in T.walk(f["body"]) if lp[0] == "For" and any(T.callee_name(c) == "solve_with_mask" for c in T.calls(lp[5]))]
+        setters = []
+        for lp in T.walk(f["body"]):
+            if lp[0] != "For":
+                continue
+            for c in T.calls(lp[5]):
+                if T.callee_name(c) == "set_bit":
+                    iv = None
+                    for x in T.walk(lp[2]) if T.is_node(lp[2]) else []:
+                        if x[0] == "Decl":
+                            iv = x[2][0][0]
+                    if iv is None:
+                        continue
+                    pos = rat(T.call_args(c)[1])
+                    off = pos - RF.Rat.sym(iv)
+                    setters.append((off, loop_bound(lp)))
+        if len(removal) != 1 or len(setters) != 2 or any(b is None for _, b in setters):
+            R.anchor_missing(RULE, "minimal_solve: %d removal loops, %d loops that set bits of actual_bits" % (len(removal), len(setters)))
+            return
+        (o1, b1), (o2, b2) = setters
+        zero = RF.Rat.const(0)
+        if o1.same(zero) and o2.same(b1):
+            width = b1 + b2
+        elif o2.same(zero) and o1.same(b2):
+            width = b1 + b2
+        else:
+            R.anchor_missing(RULE, "minimal_solve: the loops that rebuild actual_bits do not tile the mask (offsets %r, %r)" % (o1, o2))
+            return
+        bound = loop_bound(removal[0])
+    except RF.NotRational as e:
+        R.anchor_missing(RULE, "minimal_solve: loop bound not a polynomial (%s)" % e)
+        return
+    if bound is not None and bound.same(width - RF.Rat.const(1)):
+        R.ok(RULE, "removal-loop", "bound %r = mask width %r - 1" % (bound, width))
+    else:
+        R.violation(RULE, "removal-loop", "the removal loop of minimal_solve runs to %r but the entity mask has %r bits: the members from that bound to the last but one (initial solutions) "
+                    "are never tried, so a reported -minimal model can strictly contain another reported model" % (bound, width), file=f["file"], line=removal[0][1], function=f["q"])
